@@ -167,3 +167,56 @@ pub fn hostile_f64(rng: &mut Rng) -> f64 {
     ];
     *rng.pick(POOL)
 }
+
+/// A rank-deficient-by-construction problem: sum of k >= 2 decays (+ optional
+/// offset) in which two decay constants are *exactly* equal at every α of the
+/// returned history, with a user-chosen threshold that lies decisively between
+/// the kept singular values and the (numerically zero) dropped one.
+pub fn gen_rank_deficient(rng: &mut Rng, is_f64: bool, smax: usize, steps: usize) -> (Generated, Vec<Vec<f64>>) {
+    let k = rng.int(2, 3);
+    let offset = rng.chance(0.5);
+    let n = rng.int(k + 3, 30);
+    let x = grid_r(rng, n, 0.0, 3.0, 8.0, 0.0);
+    let mspec = z1(x, k, offset);
+    let base: Vec<f64> = {
+        let mut t = rng.range(0.5, 1.2);
+        (0..k).map(|_| { let v = t; t *= rng.range(2.5, 4.0); v }).collect()
+    };
+    let s = if rng.chance(0.4) { 1 } else { rng.int(2, smax.max(2)) };
+    let mut g = gen_problem_for(rng, &GenOpts { force_s: Some(s), ..Default::default() }, mspec, base.clone());
+    let (i, j) = (0usize, 1usize + rng.below(k - 1));
+    let dup = |a: &mut Vec<f64>| { a[j] = a[i]; };
+    let mut hist = Vec::new();
+    for _ in 0..steps {
+        let mut a: Vec<f64> = base.iter().map(|v| v * rng.range(0.7, 1.4)).collect();
+        dup(&mut a);
+        hist.push(a);
+    }
+    let mut a0 = base.clone();
+    dup(&mut a0);
+    g.spec.alpha0 = a0;
+    g.spec.eps = Some(if is_f64 { 1e-8 } else { 1e-2 } * rng.sign());
+    // weights of moderate spread only, so that the kept part stays well conditioned
+    if g.spec.w.is_some() {
+        let cls = if rng.chance(0.5) { WClass::Positive } else { WClass::Mixed };
+        g.spec.w = gen_weights(rng, cls, n, n);
+    }
+    (g, hist)
+}
+
+/// Next parameter vector of a history: usually `fresh`, but with probability 0.4 only
+/// some coordinates move and the others stay bit-identical to `prev` (coordinate-wise
+/// steps, parameter scans) — the pattern that exposes stale per-parameter caches.
+pub fn next_alpha(rng: &mut Rng, prev: &[f64], fresh: Vec<f64>) -> Vec<f64> {
+    if prev.len() != fresh.len() || prev.len() < 2 || !rng.chance(0.4) {
+        return fresh;
+    }
+    let mut out = prev.to_vec();
+    let k = rng.below(prev.len());
+    out[k] = fresh[k];
+    if prev.len() > 2 && rng.chance(0.3) {
+        let k2 = rng.below(prev.len());
+        out[k2] = fresh[k2];
+    }
+    out
+}
